@@ -252,8 +252,34 @@ fn base_document(rng: &mut Rng) -> String {
             }
         }
     }
+    // well-formed content the writer never produces: elements nested inside non-empty <node>, <edge>,
+    // <data> or unknown wrappers (GraphML nested graphs, ports, hyperedges, descriptions)
+    if rng.chance(35) {
+        let mut fresh = 0u32;
+        for _ in 0..rng.range(1, 4) { nested_block(rng, 0, n as u64, &tag, wkey, &mut fresh, &mut d); }
+    }
     d.push_str("  </graph>\n</graphml>\n");
     d
+}
+
+/// one random well-formed element (possibly with children) appended to `d`
+fn nested_block(rng: &mut Rng, depth: u32, n: u64, tag: &str, wkey: &str, fresh: &mut u32, d: &mut String) {
+    let kids = |rng: &mut Rng, fresh: &mut u32, d: &mut String| {
+        if depth < 3 { for _ in 0..rng.range(0, 3) { nested_block(rng, depth + 1, n, tag, wkey, fresh, d); } }
+    };
+    let endpoint = |rng: &mut Rng, fresh: &u32| -> String {
+        if n > 0 && (*fresh == 0 || rng.chance(60)) { format!("n{}{}", rng.below(n), tag) } else if *fresh > 0 { format!("m{}", rng.below(*fresh as u64)) } else { "n0".to_string() }
+    };
+    match rng.below(9) {
+        0 | 1 => { *fresh += 1; d.push_str(&format!("<node id=\"m{}\">", *fresh - 1)); kids(rng, fresh, d); d.push_str("</node>\n"); }
+        2 => { *fresh += 1; d.push_str(&format!("<node id=\"m{}\"/>\n", *fresh - 1)); }
+        3 => { let (u, v) = (endpoint(rng, fresh), endpoint(rng, fresh)); d.push_str(&format!("<edge source=\"{}\" target=\"{}\">", u, v)); kids(rng, fresh, d); d.push_str("</edge>\n"); }
+        4 => { let (u, v) = (endpoint(rng, fresh), endpoint(rng, fresh)); d.push_str(&format!("<edge source=\"{}\" target=\"{}\"/>\n", u, v)); }
+        5 => { d.push_str(&format!("<graph id=\"sub{}\" edgedefault=\"{}\">", depth, *rng.pick(&["directed", "undirected"]))); kids(rng, fresh, d); d.push_str("</graph>\n"); }
+        6 => { let name = *rng.pick(&["desc", "port", "hyperedge", "locator", "y:ShapeNode"]); d.push_str(&format!("<{}>", name)); kids(rng, fresh, d); d.push_str(&format!("</{}>\n", name)); }
+        7 => { d.push_str(&format!("<data key=\"{}\">", *rng.pick(&[wkey, "d1", "weight"]))); if rng.chance(50) { d.push_str(*rng.pick(&["3", "0.5", "x", " 2 "])); } kids(rng, fresh, d); d.push_str("</data>\n"); }
+        _ => { d.push_str(&format!("<data key=\"{}\">{}</data>\n", wkey, *rng.pick(&["9", "1.25", "-2"]))); }
+    }
 }
 
 const SNIPPETS: [&str; 34] = [
